@@ -233,9 +233,6 @@ def check(rep, an, tier):
               construct="L1 in cartesian_to_barycentric", entry="cartesian_to_barycentric", config=res.config,
               msg="the total enters the coordinates through the linear map (as an entry of the stacked vector) instead of multiplying its result: "
                   "only the offset term is scaled, the chromaticity of the re-expanded samples is shifted and they leave the gamut for totals ≠ 1")
-    rep.advisory("l1 sampling draws in the L1-normalised image of ALL gamut vertices (the cone's cross-section) and rescales to l1; that set "
-                 "equals the gamut's slice at total l1 only for small l1 — membership of l1-samples is not decided here (reported by an "
-                 "independent run-time probe: 80 % → 0 % in-gamut as l1 grows)")
     rep.require("R-SEED", 20)
     rep.require("R-SIMPLEX", 10)
     rep.require("R-API", 5)
